@@ -1,5 +1,6 @@
 import GIV.Lemmas.CachePutConcReadable
 import GIV.Lemmas.CachePutMix
+import GIV.Lemmas.CacheCodecBridge
 /-!
 # C11 — concurrent cache users never observe corrupt or foreign data
 
@@ -293,5 +294,53 @@ example : Mixture ([7, 3, 32] ++ (49 :: List.replicate 18 50) ++ [10]) (mixP.enc
   refine ⟨?_, rfl⟩
   simp only [mixP, List.replicate, List.cons_append, List.nil_append, Nat.toUInt8]
   repeat (first | exact Mixture.nil | apply Mixture.cons_a | apply Mixture.cons_b)
+
+/-! ### the torn-read corner for the REAL codec of cache.go
+
+`GIV.Lemmas.CacheCodecBridge` instantiates `FixedFields` with the codec of `GIV.Model.Cache` (`realF`:
+`enc` = `fmtEntry` = `fmt.Sprintf("v1 %x %x %20d %20d\n", …)` evaluated on the regenerated format string,
+`parse` = `parseEntry` = the body of `get` with the regenerated offsets and checks), for sizes below `2^63`
+(`OkSize`) and time stamps `10^18 ≤ t < 9·10^18` ns (`OkTime`: 19 digits, leading digit 1 … 8;
+2001-09-09T01:46:40Z up to 2255-03-14T16:00:00Z, `okTime_window`). -/
+
+/-- **the real codec is a codec with fixed field positions**: `mix_parse_same` instantiated with `realF`. -/
+theorem mix_parse_same_real_fields (H : Bytes → Cache.Hash) (id out : Cache.Hash) (size : Nat) (t1 t2 : Int)
+    (hs : size < 2 ^ 63) (h1 : 10 ^ 18 ≤ t1 ∧ t1 < 9 * 10 ^ 18) (h2 : 10 ^ 18 ≤ t2 ∧ t2 < 9 * 10 ^ 18) {m : Bytes}
+    (hm : Mixture m (Cache.fmtEntry id out (size : Int) t1) (Cache.fmtEntry id out (size : Int) t2)) :
+    (CacheBridge.realP H).parse id m = some ⟨out, size⟩ :=
+  mix_parse_same (CacheBridge.realF H) id out size t1 t2 hs h1 h2 hm
+
+/-- **mix_parse_same_real**: the real `get` of cache.go (`Cache.parseEntry`) applied to ANY byte-wise mixture
+of two real index entries `fmt.Sprintf("v1 %x %x %20d %20d\n", id, out, size, t)` with equal (id, out, size),
+`size < 2^63`, and time stamps of 19 digits with leading digit ≤ 8 (`10^18 ≤ t < 9·10^18` ns: the years 2001
+to 2255) succeeds with that output and that size; the time stamp it reports is the number the mixed digits
+denote, again in that window.  A read of the entry torn by a concurrent re-store of identical content still
+finds the stored output. -/
+theorem mix_parse_same_real (id out : Cache.Hash) (size : Nat) (t1 t2 : Int)
+    (hs : size < 2 ^ 63) (h1 : 10 ^ 18 ≤ t1 ∧ t1 < 9 * 10 ^ 18) (h2 : 10 ^ 18 ≤ t2 ∧ t2 < 9 * 10 ^ 18) {m : Bytes}
+    (hm : Mixture m (Cache.fmtEntry id out (size : Int) t1) (Cache.fmtEntry id out (size : Int) t2)) :
+    ∃ tm : Int, Cache.parseEntry id m = .ok ⟨out, (size : Int), tm⟩ ∧ 10 ^ 18 ≤ tm ∧ tm < 9 * 10 ^ 18 :=
+  CacheBridge.real_mix_parse_same id out size t1 t2 hs h1 h2 hm
+
+def realId : Cache.Hash := ⟨List.replicate 32 0xab, by decide⟩
+def realOut : Cache.Hash := ⟨List.replicate 32 0x5c, by decide⟩
+/-- two entries for the same (id, output, size = 3) written at 2023-11-14T22:13:20.123456789Z and …20.987654321Z. -/
+def entryA : Bytes := Cache.fmtEntry realId realOut 3 1700000000123456789
+def entryB : Bytes := Cache.fmtEntry realId realOut 3 1700000000987654321
+/-- a read torn inside the time field: 168 bytes of the first entry (13 of its 19 digits), the last 7 of the second (6 digits and the newline). -/
+def tornRead : Bytes := entryA.take 168 ++ entryB.drop 168
+
+example : entryA.length = 175 ∧ entryB.length = 175 ∧ Mixture tornRead entryA entryB ∧
+    tornRead ≠ entryA ∧ tornRead ≠ entryB ∧
+    (Cache.parseEntry realId tornRead).toOption = some ⟨realOut, 3, 1700000000123654321⟩ ∧
+    (Cache.parseEntry realId entryA).toOption = some ⟨realOut, 3, 1700000000123456789⟩ := by
+  have ha : entryA.length = 175 := by decide +kernel
+  have hb : entryB.length = 175 := by decide +kernel
+  exact ⟨ha, hb, CacheBridge.mixture_take_drop 168 entryA entryB (by rw [ha, hb]),
+    by decide +kernel, by decide +kernel, by decide +kernel, by decide +kernel⟩
+
+example : ∃ tm : Int, Cache.parseEntry realId tornRead = .ok ⟨realOut, 3, tm⟩ ∧ 10 ^ 18 ≤ tm ∧ tm < 9 * 10 ^ 18 :=
+  mix_parse_same_real realId realOut 3 1700000000123456789 1700000000987654321 (by decide) (by decide) (by decide)
+    (CacheBridge.mixture_take_drop 168 entryA entryB (by decide +kernel))
 
 end GIV.C11
